@@ -35,6 +35,7 @@ def run_persist_property(prop, module, trusted, tier, seed, replay, gen_cases, k
     verdict.settle(rep, ok, info, findings, module)
     proof_coverage(rep, info, "cd lean && lake build %s && lake env lean <#print axioms audit>" % module, trusted)
     ploss_n = 0
+    ploss_views = 0
     hist, crashes, index_rej, feats = {}, 0, 0, {"rotation": 0, "auto_or_manual_snapshot": 0, "segment_compaction": 0,
                                                   "restarts>=2": 0, "failed_op": 0, "tombstone_compaction_possible": 0}
     for c in stats.get("results", []):
@@ -48,6 +49,9 @@ def run_persist_property(prop, module, trusted, tier, seed, replay, gen_cases, k
             m = re.search(r" plossn=(\d+)", l)
             if m:
                 ploss_n += int(m.group(1))
+                mv = re.search(r" plossv=(\S+)", l)
+                if mv and mv.group(1) != "-":
+                    ploss_views += mv.group(1).count("#") + 1
                 l = l.split(" ploss=")[0]
             if " crash=" in l and l.split(" crash=", 1)[1].strip():
                 crashes += l.split(" crash=", 1)[1].count("#") + 1
@@ -91,6 +95,7 @@ def run_persist_property(prop, module, trusted, tier, seed, replay, gen_cases, k
         "histories_exercising": feats,
         "kill_points_recovered_by_real_code": crashes,
         "power_loss_directories_recovered_by_real_code": ploss_n,
+        "power_loss_referenced_views_matched_to_model_prefixes": ploss_views,
         "accept_index_observed": index_rej,
         "ops_executed": stats["ops"],
         "samples": [cases[-1][:12]] if cases else [],
